@@ -1,4 +1,5 @@
 import UF.Model.Regex
+import UF.Model.RegexQuirk
 /-
   `parseRE : Bytes → Option Re` – a model of `regexp/syntax.Parse(·, syntax.Perl)` for the subset
 
@@ -283,9 +284,25 @@ def parseCore (p : Bytes) : Option Re := (run initState p).bind finish
 
 def ciPrefix : Bytes := [40, 63, 105, 41]   -- "(?i)"
 
-/-- `syntax.Parse(p, syntax.Perl)` for the subset; a leading `(?i)` folds the whole expression. -/
+def ncgText : Bytes := [40, 63, 58]        -- "(?:"
+def lazyRepText : Bytes := [125, 63]       -- "}?"
+
+/-- Go's tree of a case-sensitive expression with the text `p` and the textbook tree `r` (group P3,
+    UF/Model/RegexQuirk.lean).  Without a source of case-folded literals (`hazard`) it IS the textbook
+    tree.  Otherwise `parser.factor` may merge a case-sensitive literal with a case-folded one
+    (`Regexp.Equal` ignores the flag): `quirkTree` replays it — unless the text has a non-capturing
+    group or a non-greedy counted repetition, whose effect on the grouping the tree `r` does not
+    determine (`none`: outside the modelled domain). -/
+def goTree (p : Bytes) (r : Re) : Option Re :=
+  if !r.hazard then some r
+  else if Bytes.hasSub p ncgText || Bytes.hasSub p lazyRepText then none
+  else quirkTree r
+
+/-- `syntax.Parse(p, syntax.Perl)` for the subset; a leading `(?i)` folds the whole expression (every
+    literal then carries the fold flag and Go's simplifications preserve the language); a
+    case-sensitive expression goes through `goTree`. -/
 def parseRE (p : Bytes) : Option Re :=
-  if Bytes.hasPrefix p ciPrefix then (parseCore (p.drop 4)).map foldCase else parseCore p
+  if Bytes.hasPrefix p ciPrefix then (parseCore (p.drop 4)).map foldCase else (parseCore p).bind (goTree p)
 
 /-- Group G's key lemma: parsing a concatenation = parsing the first part, then the second from the
     state reached. -/
